@@ -18,7 +18,8 @@
                   (last write wins, empty value = deletion)
      hop / run_hist    histories mixing Update/Delete and UpdateBatch, each
                   batch with its own application order of the per-nibble groups *)
-From GV Require Import Lib.Tactics Trie.Hex Trie.Node Trie.Ops Trie.Hash Trie.OpsProofs Trie.Canon.
+From Coq Require Import Sorted.
+From GV Require Import Lib.Tactics Trie.Hex Trie.Node Trie.Ops Trie.Hash Trie.OpsProofs Trie.Canon Trie.Iter Trie.IterProofs.
 Local Open Scope N_scope.
 
 (* keybytesToHex of a byte key is a valid hex key *)
@@ -149,6 +150,28 @@ Theorem C06_history_root_hash : forall resolve (H : list N -> list N) hs1 hs2,
 Proof. exact history_root_hash. Qed.
 Print Assumptions C06_history_root_hash.
 
+(* (g, iterator) the key/value iterator (iterator.go: the nodeIterator stack
+   machine with the value slot of a full node visited first) drained over the
+   trie built by any history never fails / runs out of fuel / panics and yields
+   exactly the final key-value map in strictly ascending byte order of the keys
+   (blt_ent e1 e2 := bytes.Compare(key1, key2) < 0; a key that is a prefix of
+   another comes first) *)
+Theorem C06_iter_sorted_complete : forall resolve ops t ev,
+  bytes_ops ops -> update_seq resolve NEmpty ops = TOk (t, ev) ->
+  exists L, trie_iterate t = TOk L /\
+    (forall k v, In (k, v) L <-> bytes_key k /\ final_map ops k = Some v) /\
+    StronglySorted blt_ent L.
+Proof. exact iter_sorted_complete. Qed.
+Print Assumptions C06_iter_sorted_complete.
+
+Theorem C06_iter_sorted_complete_hist : forall resolve hs t,
+  Forall hop_ok hs -> run_hist resolve NEmpty hs = TOk t ->
+  exists L, trie_iterate t = TOk L /\
+    (forall k v, In (k, v) L <-> bytes_key k /\ final_map (flat_map hop_kvs hs) k = Some v) /\
+    StronglySorted blt_ent L.
+Proof. exact iter_sorted_complete_hist. Qed.
+Print Assumptions C06_iter_sorted_complete_hist.
+
 (* non-vacuity: two different histories (overwrite, a deletion that collapses a
    branch and merges short nodes, a batch above the parallel threshold applied
    in descending nibble order) with the same final map; the hypotheses hold and
@@ -163,9 +186,14 @@ Example C06_nonvacuous :
   run_hist nr NEmpty hs1 =
     TOk (NShort [1; 2]
            (NFull [NEmpty; NEmpty; NEmpty; NShort [4; 16] (NValue [2]); NEmpty; NEmpty; NEmpty; NEmpty;
-                   NEmpty; NEmpty; NEmpty; NEmpty; NEmpty; NEmpty; NEmpty; NEmpty; NValue [4]])).
+                   NEmpty; NEmpty; NEmpty; NEmpty; NEmpty; NEmpty; NEmpty; NEmpty; NValue [4]])) /\
+  trie_iterate
+    (NShort [1; 2]
+       (NFull [NEmpty; NEmpty; NEmpty; NShort [4; 16] (NValue [2]); NEmpty; NEmpty; NEmpty; NEmpty;
+               NEmpty; NEmpty; NEmpty; NEmpty; NEmpty; NEmpty; NEmpty; NEmpty; NValue [4]]))
+    = TOk [([18], [4]); ([18; 52], [2])].
 Proof.
-  cbv zeta. split; [|split; [|split; [|split]]].
+  cbv zeta. split; [|split; [|split; [|split; [|split]]]].
   - repeat constructor.
   - apply Forall_cons; [|constructor]. split; [repeat constructor|]. split; [|split].
     + repeat (apply NoDup_cons; [simpl; intuition discriminate|]). apply NoDup_nil.
@@ -176,6 +204,7 @@ Proof.
       destruct (bytes_eqb k [18; 52]) eqn:B3; destruct (bytes_eqb k [35]) eqn:B4; try reflexivity;
       repeat match goal with Hb : bytes_eqb _ _ = true |- _ => apply bytes_eqb_eq in Hb end;
       congruence.
+  - vm_compute. reflexivity.
   - vm_compute. reflexivity.
   - vm_compute. reflexivity.
 Qed.
